@@ -166,7 +166,10 @@ where
         Ok(Self {
             reader,
             max_lit: header.max_var_index * 2 + 1,
-            code: (header.input_count + 1) * 2,
+            // `code` is the literal of the next latch or and gate. It is one step ahead of the
+            // last defined literal, so for a `usize` sized `L` it can wrap around, but only when
+            // the header leaves no room for a further latch or and gate that would use it.
+            code: header.input_count.wrapping_add(1).wrapping_mul(2),
             header,
             _lit_builder: std::marker::PhantomData,
         })
@@ -359,7 +362,7 @@ where
 
             token::required_newline(&mut self.parser.reader)?;
         }
-        self.parser.code += 2;
+        self.parser.code = self.parser.code.wrapping_add(2);
         Ok(Some(OrderedLatch {
             next_state,
             initialization,
@@ -636,7 +639,7 @@ where
             "first input code",
         )?;
 
-        self.parser.code += 2;
+        self.parser.code = self.parser.code.wrapping_add(2);
         Ok(Some(OrderedAndGate {
             inputs: [L::from_code(input_code_0), L::from_code(input_code_1)],
         }))
@@ -831,7 +834,8 @@ where
             header.fairness_constraint_count,
         ];
 
-        self.code = (header.input_count + 1) * 2;
+        // See `Parser::new` for why this may wrap.
+        self.code = header.input_count.wrapping_add(1).wrapping_mul(2);
 
         let mut fields = fields.as_slice();
 
@@ -869,7 +873,7 @@ where
                 self.writer.write_all_defer_err(b"\n");
             }
         }
-        self.code += 2;
+        self.code = self.code.wrapping_add(2);
     }
 
     pub fn write_count(&mut self, count: usize) {
@@ -889,7 +893,7 @@ where
 
         self.write_binary_uint(delta_0);
         self.write_binary_uint(delta_1);
-        self.code += 2;
+        self.code = self.code.wrapping_add(2);
     }
 
     fn write_binary_uint(&mut self, mut code: usize) {
